@@ -50,23 +50,29 @@ Print Assumptions C12_moving_floor_refuted.
 (* ---- which variables are reduced (model FloorPlan of the loops in ocean_floor) ---- *)
 
 (* all other variables are left as they were: a variable without a depth dimension is untouched and keeps every dimension *)
-Theorem C12_other_variables_untouched : forall dds ns vs v, (forall d, In d dds -> ~ In d (v_dims v)) ->
-  action_of dds ns vs v = Untouched /\ result_dims dds v = v_dims v.
+Theorem C12_other_variables_untouched : forall dds ns skip vs v, (forall d, In d dds -> ~ In d (v_dims v)) ->
+  action_of dds ns skip vs v = Untouched /\ result_dims dds v = v_dims v.
 Proof. exact no_depth_untouched. Qed.
 Print Assumptions C12_other_variables_untouched.
 
 (* every data variable with a depth dimension and a horizontal one is reduced - none is skipped or dropped - at the floor
    located in a data variable on the same depth and horizontal dimensions *)
-Theorem C12_every_depth_variable_reduced : forall dds ns vs v dd, In v vs -> depth_dim_of dds v = Some dd ->
-  spatial dd ns v <> [] ->
-  exists r, action_of dds ns vs v = Floored dd (v_name r) /\ In r vs /\ has dd (v_dims r) = true /\
-            same_set (spatial dd ns r) (spatial dd ns v) = true.
+Theorem C12_every_depth_variable_reduced : forall dds ns skip vs v dd, In v vs -> depth_dim_of dds v = Some dd ->
+  has (v_name v) skip = false -> spatial dd ns v <> [] ->
+  exists r, action_of dds ns skip vs v = Floored dd (v_name r) /\ In r vs /\ has dd (v_dims r) = true /\
+            has (v_name r) skip = false /\ same_set (spatial dd ns r) (spatial dd ns v) = true.
 Proof. exact depth_variable_floored. Qed.
 Print Assumptions C12_every_depth_variable_reduced.
 
+(* the bounds of the depth coordinates (the names in skip) are never reduced and never locate a floor *)
+Theorem C12_depth_bounds_go_with_the_dimension : forall dds ns skip vs v dd, depth_dim_of dds v = Some dd ->
+  has (v_name v) skip = true -> action_of dds ns skip vs v = Dropped.
+Proof. exact depth_bounds_dropped. Qed.
+Print Assumptions C12_depth_bounds_go_with_the_dimension.
+
 (* variables on the same depth and horizontal dimensions share that reference *)
-Theorem C12_group_shares_reference : forall dd ns vs v w,
-  same_set (spatial dd ns v) (spatial dd ns w) = true -> reference dd ns vs v = reference dd ns vs w.
+Theorem C12_group_shares_reference : forall dd ns skip vs v w,
+  same_set (spatial dd ns v) (spatial dd ns w) = true -> reference dd ns skip vs v = reference dd ns skip vs w.
 Proof. exact group_shares_reference. Qed.
 Print Assumptions C12_group_shares_reference.
 
@@ -76,9 +82,9 @@ Proof. exact result_dims_spec. Qed.
 Print Assumptions C12_depth_dimensions_removed.
 
 (* the order in which the depth dimensions are visited (sorted by hash in the code) does not matter *)
-Theorem C12_depth_dimension_order_irrelevant : forall dds dds' ns vs v,
+Theorem C12_depth_dimension_order_irrelevant : forall dds dds' ns skip vs v,
   (forall d, In d dds <-> In d dds') ->
   (forall d d', In d dds -> In d' dds -> In d (v_dims v) -> In d' (v_dims v) -> d = d') ->
-  action_of dds ns vs v = action_of dds' ns vs v.
+  action_of dds ns skip vs v = action_of dds' ns skip vs v.
 Proof. exact action_order_independent. Qed.
 Print Assumptions C12_depth_dimension_order_irrelevant.
